@@ -37,6 +37,9 @@ var (
 	VerifGateFn func(proc string, inst int64, point string)
 	// VerifCommanderFn may return a scripted commander; nil means "use the real one".
 	VerifCommanderFn func(info VerifLaunchInfo) command.Commander
+	// VerifWgFn sees every change of Run()'s wait group (delta, count), and its wait being satisfied
+	// (delta 0), under the wait group's own mutex.
+	VerifWgFn func(delta int, n int)
 	// VerifBackoffFn may scale the restart back-off computed by the code.
 	VerifBackoffFn func(proc string, inst int64, d time.Duration) (time.Duration, bool)
 )
@@ -142,6 +145,14 @@ func verifGateName(name string, point string) {
 		return
 	}
 	fn(name, 0, point)
+}
+
+func verifWg(delta int, n int) {
+	fn := VerifWgFn
+	if fn == nil {
+		return
+	}
+	fn(delta, n)
 }
 
 func verifBackoff(p *Process, d time.Duration) (time.Duration, bool) {
